@@ -40,7 +40,7 @@ func main() {
 			Rule:        "tables under the concurrency a live database puts on them: (a) 40 rounds per case, 2..8 goroutines do their FIRST Get / ScanPrefix together on a table freshly re-opened from its descriptor (lazy footer load) and every one must get the stored entry; (b) 4..8 goroutines call Write on ONE TableWriter 250 times each (flush and compaction share the database's writer): every table gets its own file and, re-opened from its descriptor, returns exactly what was written to it; (c) 6 WAL writers per case: 2000..5000 Put/Delete with a Cut every 1..3 operations on one goroutine while another keeps calling Truncate with earlier sequence numbers (newest cut / half way / far behind) (the writer's documented contract), then Rotate+Save and replay from four start markers; panics in the code under test are reported with their stack; non-trivial = always"},
 		&lib.Prop{ID: "C17", Part: "wal", Level: "exploration", NCases: n(5000, 150000), Run: walCase,
 			Assumptions: []string{"Truncate arguments are non-decreasing and never exceed the last cut point (what DB passes: LatestSeqNum of the flushed tables)"},
-			Rule:        "scripts of Put/Delete/Cut/Truncate(s)/Rotate on wal.Writer (sequence numbers contiguous from 1), ending in Rotate+Save; the saved file is read with Handle{After:a} (also through the HandleDocument JSON form) for EVERY a from the largest truncation point to the last sequence number; output must equal the appended ops with seq>a in order; non-trivial = script has a Rotate followed by a Truncate, or >=2 cuts; distinct by script hash"},
+			Rule:        "scripts of Put/Delete/Cut/Truncate(s)/Rotate on wal.Writer (sequence numbers contiguous from 1), ending in Rotate+Save; after half of the mid-script rotations the writer rotated away from is saved as DB.Checkpoint does and its file replayed the same way while the next writer still carries its untruncated segments; the saved file is read with Handle{After:a} (also through the HandleDocument JSON form) for EVERY a from the largest truncation point to the last sequence number; output must equal the appended ops with seq>a in order; non-trivial = script has a Rotate followed by a Truncate, or >=2 cuts; distinct by script hash"},
 		&lib.Prop{ID: "C18", Part: "compaction", Level: "exploration", NCases: n(2000, 40000), Run: compactionCase,
 			Assumptions: []string{"layouts are produced only by flushing model memtables and by compacting (the only legitimate way)", "change sets are applied the way dkv.DB applies them (NewWithChangeSet on the then-current list)"},
 			Rule:        "random write histories over <=14 prefix-related keys flushed as L0 tables (increasing sequence numbers, overwrites, tombstones over older levels), compactor settings drawn from L0 trigger 1..4 x amplification {0,25,50,100,200}% x smallest level 1..600 B x multiplier x target table 40..400 B, Compact repeated to a fixed point with new L0 tables arriving between a step's snapshot and the application of its change set; a quarter of the steps run with one injected read error on an input table (the step must fail without a change set or produce the complete result); after every step Get over the key universe and ScanPrefix over every prefix must equal the model and L1+ must be sorted/disjoint; non-trivial = >=1 major and >=1 minor step or a populated middle level; distinct by (settings, history) hash"},
@@ -417,6 +417,41 @@ func walCase(c *lib.Ctx) {
 	keys := lib.KeyUniverse(r, 6, 2)
 	vg := &lib.ValueGen{Writer: "w"}
 	rotThenTrunc, cuts, rotated := false, 0, false
+	checked := 0
+	// checkReplay reads the saved file of wr with every start marker from truncMax to seq (both handle forms) and
+	// compares with the model's retained operations.
+	checkReplay := func(wr *wal.Writer, retained []wop, truncMax, seq uint64, what string) {
+		wit := map[string]any{"script": append([]string(nil), script...), "local_fs": local, "file": what}
+		for a := truncMax; a <= seq; a++ {
+			for form := 0; form < 2; form++ {
+				h := wr.Handle(a)
+				if form == 1 {
+					js, err := json.Marshal(h.Document())
+					lib.Must(err)
+					var d wal.HandleDocument
+					lib.Must(json.Unmarshal(js, &d))
+					h = wal.NewHandle(fs, d)
+				}
+				var got []wop
+				for e, err := range wal.NewReader(fs, h).All() {
+					if err != nil {
+						c.Fail("wal-replay", wit, "%s: reading with After=%d: %v", what, a, err)
+					}
+					got = append(got, wop{k: e.K, v: e.V, del: e.Deleted})
+				}
+				var want []wop
+				for _, o := range retained {
+					if o.seq > a {
+						want = append(want, o)
+					}
+				}
+				if !sameWops(got, want) {
+					c.Fail("wal-replay", wit, "%s: replay with After=%d (form %d) = %v, appended ops with seq>%d are %v", what, a, form, fmtWops(got), a, fmtWops(want))
+				}
+				checked++
+			}
+		}
+	}
 	nops := 3 + r.Intn(40)
 	for i := 0; i < nops; i++ {
 		switch x := r.Intn(20); {
@@ -468,11 +503,22 @@ func walCase(c *lib.Ctx) {
 			}
 		default:
 			script = append(script, "rotate")
+			prev := w
 			w = w.Rotate(fs)
 			sealed = append(sealed, seg{seq, activeN})
 			activeN = 0
 			lastCut = seq // a rotation seals the active buffer like a cut does
 			rotated = true
+			if r.Intn(2) == 0 {
+				// what DB.Checkpoint does with the writer it rotated away from: save it. Its file holds everything the
+				// writer retained at the rotation, and the next writer still carries the untruncated segments.
+				script = append(script, "save previous")
+				if err := prev.Save(); err != nil {
+					c.Fail("wal-save", script, "Save of the rotated writer: %v", err)
+				}
+				checkReplay(prev, append([]wop(nil), retained...), truncMax, seq, "rotated writer saved in mid-script")
+				c.Feat("intermediate_writers_saved_and_replayed", 1)
+			}
 		}
 	}
 	script = append(script, "rotate+save")
@@ -481,37 +527,7 @@ func walCase(c *lib.Ctx) {
 	if err := final.Save(); err != nil {
 		c.Fail("wal-save", script, "Save: %v", err)
 	}
-	wit := map[string]any{"script": script, "local_fs": local}
-	checked := 0
-	for a := truncMax; a <= seq; a++ {
-		for form := 0; form < 2; form++ {
-			h := final.Handle(a)
-			if form == 1 {
-				js, err := json.Marshal(h.Document())
-				lib.Must(err)
-				var d wal.HandleDocument
-				lib.Must(json.Unmarshal(js, &d))
-				h = wal.NewHandle(fs, d)
-			}
-			var got []wop
-			for e, err := range wal.NewReader(fs, h).All() {
-				if err != nil {
-					c.Fail("wal-replay", wit, "reading with After=%d: %v", a, err)
-				}
-				got = append(got, wop{k: e.K, v: e.V, del: e.Deleted})
-			}
-			var want []wop
-			for _, o := range retained {
-				if o.seq > a {
-					want = append(want, o)
-				}
-			}
-			if !sameWops(got, want) {
-				c.Fail("wal-replay", wit, "replay with After=%d (form %d) = %v, appended ops with seq>%d are %v", a, form, fmtWops(got), a, fmtWops(want))
-			}
-			checked++
-		}
-	}
+	checkReplay(final, retained, truncMax, seq, "final writer")
 	c.Feat("ops", int64(nops))
 	c.Feat("replays_checked", int64(checked))
 	if rotThenTrunc {
